@@ -9,7 +9,7 @@
    PrefixNormalizer.refitValue).  `xml_chardata_decode` / `xml_attvalue_decode`
    are the XML 1.0 rules an independent parser applies (None = not well-formed). *)
 From SV Require Import Lib.Base Gen.C04Tables C04.Model C04.EncProofs C04.DecodeProofs C04.RefitProofs C04.ReplyProofs
-     C04.TreeProofs C04.Chunks C04.Tokens C04.TokenProofs C04.PrettyTokens C04.Bounded.
+     C04.TreeProofs C04.Chunks C04.Tokens C04.TokenProofs C04.PrettyTokens C04.NsModel C04.NsProofs C04.Bounded.
 Local Open Scope N_scope.
 
 (* ------------------------------------------------------------------ *)
@@ -281,3 +281,71 @@ Example end_to_end_nonvacuous :
   pretty 0 t = [60;97;32;120;61;34;38;113;117;111;116;59;38;35;57;59;34;62;32;38;108;116;59;32;
                 10;32;32;32;60;98;62;32;121;32;60;47;98;62;10;32;32;32;60;99;47;62;10;60;47;97;62].
 Proof. repeat split; reflexivity. Qed.
+
+(* ------------------------------------------------------------------ *)
+(* requests as whole documents (NsModel.v)                             *)
+(* ------------------------------------------------------------------ *)
+(* `nelem` is the Element tree with prefixes, explicit namespaces and prefix
+   mappings; `doc_plain` / `doc_pretty` are Document.plain() / str(): the XML
+   declaration, qualified names, nsdeclarations() (a declaration is left out
+   when the parent already provides it), attributes, text, children.
+   `xml_infoset` = strip the prolog -> cut by the XML grammar -> decode ->
+   build the tree (spec builder, nothing trimmed) -> canon -> resolve namespaces. *)
+
+(* the declarations are written exactly like attributes: the namespaced tree is
+   the plain tree with the declarations as attributes *)
+Theorem plain_ns_flatten : forall e par, nelem_ok e = true -> plain_ns par e = plain (flatten par e).
+Proof. exact plain_ns_flatten_l. Qed.
+Print Assumptions plain_ns_flatten.
+
+Theorem pretty_ns_flatten : forall e par i,
+  nelem_ok e = true -> pretty_ns i par e = pretty i (flatten par e).
+Proof. exact pretty_ns_flatten_l. Qed.
+Print Assumptions pretty_ns_flatten.
+
+(* the tree builder of the specification and suds' Handler agree up to canon *)
+Theorem spec_tree_canon : forall evs,
+  option_map canon (tree_of_events evs) = option_map canon (handler evs).
+Proof. exact spec_tree_canon_l. Qed.
+Print Assumptions spec_tree_canon.
+
+(* what a namespace-aware parser resolves from the declarations that were
+   written (and those that were left out) is what Element.namespace() and
+   Attribute.namespace() mean, for every element and attribute of the tree *)
+Theorem infoset_flatten : forall e par dflt ctx scope,
+  nelem_ok e = true -> Ctx par dflt ctx scope ->
+  infoset scope (canon (flatten par e)) = ninfoset dflt ctx e.
+Proof. exact infoset_flatten_l. Qed.
+Print Assumptions infoset_flatten.
+
+(* THE REQUEST, END TO END.  Any document tree (in particular soap_envelope ...:
+   Envelope(Header(...), Body(...)) with any content), either serialiser: the
+   characters sent, read by grammar + XML decoding + namespace resolution, are
+   the infoset suds meant - every element and attribute under its expanded
+   name, every attribute value and every leaf text exactly the string that was
+   given, wherever it sits (text of elements with children up to surrounding
+   white space).  Guard nelem_ok: names and prefixes without delimiters, plain
+   namespace URIs, no duplicate prefix in one mapping, and values without a
+   predefined entity reference (finding C04:text-contains-entity-reference). *)
+Theorem request_end_to_end : forall e (pr : bool),
+  nelem_ok e = true ->
+  xml_infoset (if pr then doc_pretty e else doc_plain e) = ninfoset None [] e.
+Proof. exact request_end_to_end_l. Qed.
+Print Assumptions request_end_to_end.
+
+Example request_end_to_end_nonvacuous :
+  let soapenv := [117; 114; 110; 58; 101] in                       (* urn:e *)
+  let tns := [117; 114; 110; 58; 116] in                           (* urn:t *)
+  let v := [32; 60; 38; 13; 34; 32] in                             (* " <& CR quot " *)
+  let body := [NEl (Some [110; 115; 48]) [102] None [] [] None
+                 [NEl (Some [110; 115; 48]) [115] None [] [([97], mkText v false)] (Some (mkText v false)) []]] in
+  let env := soap_envelope [83; 79; 65; 80] [110; 115; 49] [([83; 79; 65; 80], soapenv); ([110; 115; 48], tns); ([110; 115; 49], soapenv)]
+                           [] [] body in
+  nelem_ok env = true /\
+  xml_infoset (doc_pretty env)
+  = Some (IT (Some soapenv, [69;110;118;101;108;111;112;101]) [] []
+            [IT (Some soapenv, [72;101;97;100;101;114]) [] [] [];
+             IT (Some soapenv, [66;111;100;121]) [] []
+                [IT (Some tns, [102]) [] []
+                    [IT (Some tns, [115]) [((None, [97]), v)] v []]]]).
+Proof. split; vm_compute; reflexivity. Qed.
